@@ -20,7 +20,7 @@ WellFormed ==
                            /\ r.g \in Funs \cup {"-"} /\ r.h \in Funs \cup {"-"} /\ r.cond \in 1..65536
                            /\ (r.kind = "axis") <=> (r.dom # "all") /\ r.amp \in Amps
   /\ \A i, j \in 1..NRel : (Rels[i].id = Rels[j].id) => i = j
-  /\ Cardinality(RegSet) = NReg /\ NReg = 144
+  /\ Cardinality(RegSet) = NReg /\ NReg = 144 + 768 + 29
   /\ \A c \in Cuts : c.axis \in {"re", "im"} /\ c.segs \subseteq {"lo", "ml", "mh", "hi"} /\ c.segs # {} /\ c.fs \subseteq Funs
 \* every one of the 38 functions has a defining relation over the whole lattice
 EveryFunctionDefined == \A f \in Funs : \E r \in RelSet : Defining(r) /\ r.f = f /\ r.dom = "all"
@@ -29,7 +29,7 @@ RECURSIVE Level(_)
 Level(n) == IF n = 0 THEN {f \in Funs : \E r \in RelSet : Defining(r) /\ r.f = f /\ Uses(r) = {}}
             ELSE LET prev == Level(n - 1) IN prev \cup {f \in Funs : \E r \in RelSet : Defining(r) /\ r.f = f /\ Uses(r) \subseteq prev}
 BottomsOut == /\ Level(0) = {"exp", "sin", "cos", "sinh", "cosh", "sqrt", "polar", "abs_sqr", "conj", "new"}
-              /\ Level(3) = Funs /\ Level(2) # Funs
+              /\ Level(2) = Funs /\ Level(1) # Funs
               /\ \A f \in {"exp", "sin", "cos", "sinh", "cosh"} : \E r \in RelSet : r.kind = "series" /\ r.f = f
 \* inverse pairings are mutual and follow the naming; hyperbolic tables parallel the trigonometric ones
 TrigInv == {"asin", "acos", "atan", "asec", "acsc", "acot"}
@@ -69,12 +69,27 @@ BranchPointNeighbourhoods ==
   /\ \A d \in Dirs : \E g \in RegSet : g.kind = "sector" /\ g.dir = d /\ g.m = 0
   /\ \A d \in Dirs : \A m \in Mods : \E g \in RegSet : g.kind = "sector" /\ g.dir = d /\ g.m = m
   /\ \A d \in AxisDirs : \A m \in Mods : \A sd \in {-1, 1} : \E g \in RegSet : g.kind = "side" /\ g.dir = d /\ g.m = m /\ g.side = sd
+\* every pole (and zero) of the quotient functions with |centre| <= 10 has lattice regions at the four distances
+\* 1e-3 .. 1e-6 in all eight directions, and the function's definition is an obligation there
+OddPoles == {"tan", "sec", "tanh", "sech"}
+PoleNeighbourhoods ==
+  \A f \in Trig \cup Hyp : \A n \in {-6, -5, -4, -3, -2, -1, 1, 2, 3, 4, 5, 6} : \A d \in PoleDists : \A dir \in Dirs :
+     \E g \in RegSet : /\ IsPoleReg(g) /\ g.side = n /\ g.m = d /\ g.dir = dir /\ g.c = (IF f \in Trig THEN "pole_re" ELSE "pole_im")
+                       /\ \E r \in RelSet : r.kind \in {"quot", "recip"} /\ r.f = f /\ Applies(r, g)
+                       /\ (f = "tan" /\ dir \in {0, 4}) => \E r \in RelSet : r.kind = "axis" /\ r.f = f /\ Applies(r, g)
+\* special exact arguments: -0.0 twins of every axis ray and modulus class (incl. +-1, +-i), and 0
+ExactArguments ==
+  /\ \A d \in AxisDirs : \A m \in Mods : \E g \in RegSet : IsNegZero(g) /\ g.dir = d /\ g.m = m
+  /\ \E g \in RegSet : IsZeroReg(g)
+  /\ \A g \in RegSet : IsNegZero(g) => \A f \in {"ln", "arg"} : RangeAt(f, g).loClosed /\ RangeAt(f, g).f = f
+  /\ \A g \in RegSet : ~IsNegZero(g) => \A f \in Funs : RangeAt(f, g) = RangeOf(f)
 \* shape of the matrix
 MatrixShape ==
   /\ \A i \in 1..NRel : \E j \in 1..NReg : Applies(Rels[i], Regs[j])
   /\ \A j \in 1..NReg : \E i \in 1..NRel : Applies(Rels[i], Regs[j])
   /\ \A i \in 1..NRel : \A j \in 1..NReg :
-        (Rels[i].dom = "all" /\ ~Applies(Rels[i], Regs[j])) => (ExactPoint(Regs[j]) \in Sing(Rels[i].f))
+        (Rels[i].dom = "all" /\ ~IsPoleReg(Regs[j]) /\ ~IsZeroReg(Regs[j]) /\ ~Applies(Rels[i], Regs[j])) => (ExactPoint(Regs[j]) \in Sing(Rels[i].f))
+  /\ ZeroRels \subseteq {Rels[i].id : i \in 1..NRel}
   /\ \A k \in 1..(NMatrix - 1) : LET a == Matrix[k]
                                      b == Matrix[k + 1]
                                  IN a[1] < b[1] \/ (a[1] = b[1] /\ a[2] < b[2])
